@@ -37,6 +37,7 @@ def run(S):
     for f in ('create_quadrature_rule_1D', 'create_quadrature_rule_on_triangle'):
         S.function('QuadratureRule.' + f, getattr(QuadratureRule, f), 'ground')
     _kernels(S, FS, Mesh, Interpolants)
+    _patch_drivers(S, FS, Mesh, Interpolants, QuadratureRule)
     _quadrature_tables(S, QuadratureRule)
     _reference_elements(S, Interpolants, QuadratureRule)
     bounded(S)
@@ -126,6 +127,114 @@ def _kernels(S, FS, Mesh, Interpolants):
                   hyL + [tm.eq(t_, L) for t_ in lens if False], tm.eq(val, want), timeout=60000)
     finally:
         FS.solve = old_solve
+
+
+# ---------------------------------------------------------------------------
+PATCH_CONNS = [[0, 1, 2], [2, 1, 3]]      # two elements sharing the edge (1, 2), numbered differently in each
+
+
+def _patch_drivers(S, FS, Mesh, IP, QR):
+    """mesh-level drivers on an assembled patch with symbolic shape data per element: gather through the connectivity,
+    map over elements and quadrature points, block selection and the final weighted sum are the library's own"""
+    for f in ('interpolate_to_points', 'compute_field_gradient', 'integrate_over_block', 'evaluate_on_block', 'evaluate_on_element',
+              'interpolate_to_element_points', 'compute_element_field_gradient', 'project_quadrature_field_to_element_field',
+              'average_quadrature_field_over_element', 'integrate_function_on_edges', 'interpolate_nodal_field_on_edge',
+              'get_nodal_values_on_edge'):
+        S.function('FunctionSpace.' + f, getattr(FS, f), 'J')
+    S.function('Mesh.get_edge_coords', Mesh.get_edge_coords, 'J')
+    NE, NN, NPE, NQ = 2, 4, 3, 2
+    pe, pe1 = IP.make_parent_element_2d(1), IP.make_parent_element_1d(1)
+    N = J.sym_array('Np', (NE, NQ, NPE))
+    vol = J.sym_array('volp', (NE, NQ))
+    dN = J.sym_array('dNp', (NE, NQ, NPE, 2))
+    X = J.sym_array('Xp', (NN, 2))
+    U = J.sym_array('Up', (NN, 2))
+    Qs = J.sym_array('Qp', (NE, NQ, 1))
+    dt = tm.var('dt')
+
+    def fs_(N_, vol_, dN_, X_):
+        mesh = Mesh.Mesh(coords=X_, conns=jnp.array(PATCH_CONNS), simplexNodesOrdinals=None, parentElement=pe,
+                         parentElement1d=pe1, blocks=None, nodeSets=None, sideSets=None)
+        quad = QR.QuadratureRule(jnp.zeros((NQ, 2)), jnp.ones(NQ))
+        return FS.FunctionSpace(N_, vol_, dN_, mesh, quad, False)
+    uq = J.to_obj(J.symbolic_call(lambda N_, vol_, dN_, X_, U_: FS.interpolate_to_points(fs_(N_, vol_, dN_, X_), U_), N, vol, dN, X, U))
+    gq = J.to_obj(J.symbolic_call(lambda N_, vol_, dN_, X_, U_: FS.compute_field_gradient(fs_(N_, vol_, dN_, X_), U_), N, vol, dN, X, U))
+    su = lambda F, e, q, c: sum((N[e, q, a] * F[PATCH_CONNS[e][a], c] for a in range(NPE)), tm.ZERO)
+    sg = lambda e, q, i, j: sum((U[PATCH_CONNS[e][a], i] * dN[e, q, a, j] for a in range(NPE)), tm.ZERO)
+    ideal.add_ideal_obligation(S, 'FunctionSpace.interpolate_to_points/patch/is_sum_of_shape_times_nodal_value_of_the_elements_own_nodes', [],
+                               [(uq[e, q, c], su(U, e, q, c)) for e in range(NE) for q in range(NQ) for c in range(2)])
+    ideal.add_ideal_obligation(S, 'FunctionSpace.compute_field_gradient/patch/is_sum_of_nodal_value_times_shape_gradient_of_the_elements_own_nodes', [],
+                               [(gq[e, q, i, j], sg(e, q, i, j)) for e in range(NE) for q in range(NQ) for i in range(2) for j in range(2)])
+    # integral of an uninterpreted density over a block = sum over the block's elements and quadrature points of density x volume
+    dens = lambda u, dudx, q, x, dt_: J.uf('dens', u[0], u[1], dudx[0, 0], dudx[0, 1], dudx[1, 0], dudx[1, 1], q[0], x[0], x[1], dt_)
+
+    def spec_density(e, q):
+        return tm.app('dens', (su(U, e, q, 0), su(U, e, q, 1), sg(e, q, 0, 0), sg(e, q, 0, 1), sg(e, q, 1, 0), sg(e, q, 1, 1),
+                               Qs[e, q, 0], su(X, e, q, 0), su(X, e, q, 1), dt))
+    for block in ([1, 0], [1], [0]):
+        tag = 'block=' + ','.join(map(str, block))
+        val = J.scalar(J.symbolic_call(lambda N_, vol_, dN_, X_, U_, Q_, dt_: FS.integrate_over_block(fs_(N_, vol_, dN_, X_), U_, Q_, dt_, dens, jnp.array(block)),
+                                       N, vol, dN, X, U, Qs, dt))
+        want = sum((vol[e, q] * spec_density(e, q) for e in block for q in range(NQ)), tm.ZERO)
+        S.add('FunctionSpace.integrate_over_block/patch/is_sum_over_block_elements_of_volume_times_density[%s]' % tag, [], tm.eq(val, want))
+    # element averages of a quadrature field
+    qf = J.sym_array('qf', (NE, NQ))
+    av = J.to_obj(J.symbolic_call(lambda N_, vol_, dN_, X_, qf_: FS.project_quadrature_field_to_element_field(fs_(N_, vol_, dN_, X_), qf_), N, vol, dN, X, qf))
+    nz = [tm.ne(vol[e, 0] + vol[e, 1], 0) for e in range(NE)]
+    S.add('FunctionSpace.project_quadrature_field_to_element_field/patch/is_volume_weighted_average', nz,
+          tm.and_(*[tm.eq(av[e] * (vol[e, 0] + vol[e, 1]), vol[e, 0] * qf[e, 0] + vol[e, 1] * qf[e, 1]) for e in range(NE)]))
+    # edge integrals through the function space: nodal values and coordinates interpolated along the edge with the 1D shape
+    # functions, outward unit normal, length x weights; several edges add up
+    # (the callee Interpolants.compute_shapes is replaced by its result: symbolic 1D shape values at the edge quadrature points;
+    #  its own ground obligations are in _reference_elements)
+    q1 = QR.create_quadrature_rule_1D(2)
+    shp = tuple(onp.asarray(IP.compute_shapes(pe1, q1.xigauss).values).shape)      # layout of the library's 1D shape table
+    nq1 = int(onp.asarray(q1.wgauss).shape[0])
+    assert shp == (2, nq1), shp
+    Sh = J.sym_array('Sh1', shp)
+    wq = J.sym_array('w1', (nq1,))
+    fn = [[int(v) for v in row] for row in onp.asarray(pe.faceNodes)]
+    flux = lambda u, x, n: J.uf('eflux', u[0], u[1], x[0], x[1], n[0], n[1])
+    Ls = {}
+
+    def edge_spec(e, side):
+        na, nb = PATCH_CONNS[e][fn[side][0]], PATCH_CONNS[e][fn[side][-1]]
+        tv = [X[nb, c] - X[na, c] for c in range(2)]
+        L = tm.var('edgeLength_%d_%d' % (e, side))
+        Ls[(e, side)] = (L, tv)
+        tot = tm.ZERO
+        for k in range(nq1):
+            ue = [Sh[0, k] * U[na, c] + Sh[1, k] * U[nb, c] for c in range(2)]
+            xe = [Sh[0, k] * X[na, c] + Sh[1, k] * X[nb, c] for c in range(2)]
+            tot = tot + L * wq[k] * tm.app('eflux', (ue[0], ue[1], xe[0], xe[1], tv[1] / L, -tv[0] / L))
+        return tot
+
+    def with_stub(f):
+        def g(N_, vol_, dN_, X_, U_, Sh_, w_):
+            old = FS.Interpolants.compute_shapes
+            FS.Interpolants.compute_shapes = lambda parent, pts: IP.ShapeFunctions(Sh_, None)
+            try:
+                return f(fs_(N_, vol_, dN_, X_), U_, QR.QuadratureRule(q1.xigauss, w_))
+            finally:
+                FS.Interpolants.compute_shapes = old
+        return g
+    for (e, side) in ((0, 0), (1, 2)):
+        val = J.scalar(J.symbolic_call(with_stub(lambda fs, U_, qr: FS.integrate_function_on_edge(fs, flux, U_, qr, jnp.array([e, side]))),
+                                       N, vol, dN, X, U, Sh, wq))
+        want = edge_spec(e, side)
+        L, tv = Ls[(e, side)]
+        S.add('FunctionSpace.integrate_function_on_edge/patch/is_length_times_weighted_integrand_at_interpolated_points_with_outward_unit_normal[element %d side %d]' % (e, side),
+              [L > 0, tm.eq(L * L, tv[0] * tv[0] + tv[1] * tv[1])], tm.eq(val, want), timeout=60000)
+    edges = [(0, 0), (1, 2), (0, 2)]
+    val = J.scalar(J.symbolic_call(with_stub(lambda fs, U_, qr: FS.integrate_function_on_edges(fs, flux, U_, qr, jnp.array(edges))),
+                                   N, vol, dN, X, U, Sh, wq))
+    # modular: against the single-edge function (whose own clause is above), not against its expansion
+    want = tm.ZERO
+    for (e, sd) in edges:
+        want = want + J.scalar(J.symbolic_call(with_stub(lambda fs, U_, qr: FS.integrate_function_on_edge(fs, flux, U_, qr, jnp.array([e, sd]))),
+                                               N, vol, dN, X, U, Sh, wq))
+    hy = []
+    S.add('FunctionSpace.integrate_function_on_edges/patch/is_sum_of_the_single_edge_integrals', hy, tm.eq(val, want), timeout=20000)
 
 
 # ---------------------------------------------------------------------------
